@@ -877,6 +877,755 @@ def _c20_observe(names, req, resp):
 			raise ValueError(n)
 
 
+# ---------------------------------------------------------------------------------------------------------------------------------
+# Wave-5 classes (10)-(17).  A px case with a key 'w5' is built by _observe_w5 from a small script instead of the fixed sequence of
+# _observe_px; what is demanded of the prepared response is, as before, the ordinary oracle on the FINAL data (Range field value v,
+# representation d, Content-Type ct) plus _oracle_w5.  Keys of the script:
+#   lab     class label of the case (start of the failure line)
+#   q       the request: how = item | append | ctor | ctor5 (Request('GET', uri, headers, None, protocol)) | update | hset | assign | parse | wire;
+#           fields = [[name, value hex, value type], ...] in this order (Range, If-Range and the other conditional fields, bystanders;
+#           a name may come twice for append / parse / wire: the field value is the combination "a, b"); ht = the container the fields are
+#           handed over in (dict, OrderedDict, list, tuple, list of lists, iter(list), generator, map, itertools.chain, zip, dict.items(), Headers);
+#           nb = field names as bytes; ms = method given as str / bytes (before or after the fields: mfirst); pt = type of the protocol value
+#   r       the response: ord = order of the steps vk (validators) / body / ct (Content-Type); ctor = everything through Response(status, headers, body, protocol);
+#           vkb = header values as bytes; stt = type of the status value; pt = type of the protocol value
+#   b       the body: k = bytes | bytearray | bio | biow | file | bodyobj | str | knob (text + charset given to Body(text, mimetype=...), body.encoding = ...,
+#           body.mimetype = ... before the text is assigned) | list | tuple | iter | gen (not seekable: never 206, the complete representation)
+#   cfirst  the ComposedResponse object is made before request and response are filled in; ck = attributes set on it before prepare()
+#   al      aliasing scenario: a second request / response is built from the same argument object or from the parts of the first, used and
+#           mutated; the first one must behave like a new one and the argument object must be what it was
+#   refuse  operations that raise, performed on the finished request / response before prepare(): they must leave no trace
+IFR_ETAG = '"686897696a7c876b7e"'
+IFR_DATE = 'Sun, 06 Nov 1994 08:49:37 GMT'
+IFR_VSETS = [('etag', [['ETag', IFR_ETAG]]), ('lm', [['Last-Modified', IFR_DATE]]), ('etag+lm', [['ETag', IFR_ETAG], ['Last-Modified', IFR_DATE]]),
+	('lm+etag', [['Last-Modified', IFR_DATE], ['ETag', IFR_ETAG]]), ('wetag+lm', [['ETag', 'W/' + IFR_ETAG], ['Last-Modified', IFR_DATE]]),
+	('etag+lm2', [['ETag', '"v1"'], ['Last-Modified', 'Wed, 30 Sep 2026 17:15:43 GMT']])]
+# If-Range values that do NOT name the current validator the way RFC 7233 3.2 demands (other tag, weak tag, other date, same instant in an obsolete format, not a
+# validator at all): RFC 7233 says 200 with the complete representation, the statement of C20 says nothing - no expectation about the status, but whatever is sent must be right
+IFR_OTHER = ['"other"', 'W/' + IFR_ETAG, 'W/"v1"', IFR_ETAG[:-2] + '"', 'Sun, 06 Nov 1994 08:49:38 GMT', 'Sat, 05 Nov 1994 08:49:37 GMT', 'Sunday, 06-Nov-94 08:49:37 GMT', 'Sun Nov  6 08:49:37 1994',
+	'sun, 06 nov 1994 08:49:37 gmt', 'x', '*', '686897696a7c876b7e', '""', IFR_ETAG + ', "other"', 'Thu, 01 Jan 2099 00:00:00 GMT']
+W5_HT = ['dict', 'odict', 'list', 'tuple', 'lol', 'iter', 'gen', 'map', 'chain', 'zip', 'items', 'headers']
+W5_MAPPINGS = ['dict', 'odict', 'headers']
+W5_VT = ['bytes', 'str', 'bytearray', 'memoryview', 'bytesobj']
+KNOB_TEXTS = {
+	'UTF-8': [_u(0x416, 0x443, 0x43a, ' ', 0xe9, ' abc ', 0x1f600, ' ', 0x20ac, ' end'), _u('na', 0xef, 've caf', 0xe9, ' ', 0x4e2d, 0x6587, ' text')],
+	'UTF-16': [_u(0x416, 0x443, 0x43a, ' ', 0xe9, ' abc ', 0x1f600), _u('plain ascii ', 0x20ac)],
+	'utf-16-le': [_u(0x416, 0x443, 0x43a, ' ', 0xe9, ' abc'), _u(0x4e2d, 0x6587, ' x ', 0x1f600)],
+	'utf-16-be': [_u('abc ', 0x416, 0x443, 0x43a, ' ', 0xe9)],
+	'utf-32': [_u('ab', 0xe9, 0x1f600)],
+	'ISO8859-1': [_u('caf', 0xe9, ' ', 0xfc, 0xdf, ' ', 0xa0, 0xff, ' d', 0xe9, 'j', 0xe0, ' vu'), _u(0xe5, 0xe4, 0xf6, ' ', 0xc5, 0xc4, 0xd6, ' 0123456789')],
+	'iso-8859-15': [_u(0x20ac, ' 12,50 ', 0x153, 'uvre ', 0x160, 0x17e)],
+	'cp1252': [_u(0x20ac, ' caf', 0xe9, ' ', 0x2019, 'quoted', 0x201d, ' ', 0x2026, ' ', 0x2122), _u(0x160, 0x153, 0x178, ' plain ', 0xe9)],
+	'koi8-r': [_u(0x416, 0x443, 0x43a, ' ', 0x43f, 0x440, 0x438, 0x432, 0x435, 0x442, ' abc ', 0x2500, 0x2592), _u(0x41c, 0x43e, 0x441, 0x43a, 0x432, 0x430, ' 2026')],
+	'Shift_JIS': [_u(0x65e5, 0x672c, 0x8a9e, ' text ', 0xff76, 0xff85)],
+	'us-ascii': ['plain ascii text, nothing else'],
+}
+RARE_PIECES = [b'\t', b'\n', b'\x0b', b'\x0c', b'\r', b' ', b'\x00', b'\r\n', b'=', b'==', b'-', b'--', b'\r\n--', b'--\r\n', b'0', b'\xff', b'\x85', b'\xa0', b':', b'; ', b'\r\n\r\n', b'"', b'\\', b'  ', b'\x00\x00', b'\n\n',
+	b'\r\n \t', b',', b'\x1c', b'\x1f', b'\xc2\xa0', b'\xe2\x80\xa8', b'%20', b'+', b'\x7f']
+POW2 = [2 ** k for k in range(9, 17)]
+W5_REFUSE = ['body.closed', 'body.closedfile', 'body.int', 'body.obj', 'body.surrogate', 'body.seekneg', 'body.seekwhence', 'body.write.int', 'body.mime.octets', 'status.99', 'status.1000', 'status.abc', 'status.float', 'status.none',
+	'status.neg', 'method.space', 'method.empty', 'method.int', 'method.nonascii', 'qproto.text', 'qproto.short', 'qproto.one', 'qproto.int', 'rproto.text', 'rproto.pair', 'hdr.name', 'hdr.name2', 'hdr.value.obj', 'hdr.value.none',
+	'hdr.value.surr', 'hdr.parse', 'hdr.parse2', 'hdr.update.int', 'hdr.update.name', 'hdr.update.list', 'hdr.append.name', 'hdr.append.obj', 'hdr.setdefault.name', 'hdr.del.missing', 'hdr.element.bad', 'hdr.setelem.bad',
+	'rhdr.name', 'rhdr.value.obj', 'rhdr.ce.unknown', 'rhdr.cr.bad', 'composed.none']
+# NOT generated (observations on the clean tree, reported to the lead; none of them is about the statement of C20):
+#  * `message.headers = x` with an x that Headers.set refuses (a list of pairs, an int: AttributeError) has already emptied the header set - the Range field is gone (class 12);
+#  * `message.headers = message.headers` empties the header set (Headers.set clears, then updates from the emptied self) (class 10);
+#  * a body given as map(...) / itertools.chain(...) (one-shot iterators that are neither generators nor list iterators) is consumed by the Content-Length computation:
+#    Content-Length of the representation, empty body (class 11); lists, tuples, iter(list) and generators are generated below.
+W5_ALIAS = ['qdict', 'qhdrA', 'qhdrB', 'qupd', 'qelem', 'rdict', 'rhdr', 'rctor', 'bshare', 'bbio', 'barr']
+
+
+def _w5(lab, v, d, ct='text/plain', q=None, r=None, b=None, top=None, **w):
+	"""a wave-5 case: q / r / b = request / response / body part of the script, top = ordinary px keys (vk, want, noexp, rt, frag ...)"""
+	top = dict(top or {})
+	c = _px(v, d, ct, **top)
+	q = dict(q or {})
+	if 'fields' not in q:
+		q['fields'] = [['Range', None if v is None else v.hex(), 'bytes']]
+	q.setdefault('how', 'item')
+	w.update({'lab': lab, 'q': q, 'r': dict(r or {}), 'b': dict(b or {'k': 'bytes'})})
+	c['w5'] = w
+	if w['b']['k'] in ('list', 'tuple', 'iter', 'gen'):
+		c['flags'] = dict(c['flags'], list=True)  # not seekable: the statement demands nothing, the model says 200
+	if w['b']['k'] == 'knob' or w.get('nomodel'):
+		c['m'] = 0
+	return c
+
+
+def _w5_fields(rng, v, extra=(), first=None, bystanders=True):
+	"""the request fields in an order: Range among the conditional fields and some bystanders"""
+	fields = [['Range', v.hex(), 'bytes']] + [[n, x.encode('latin-1').hex(), 'str'] for n, x in extra]
+	if first is None:
+		rng.shuffle(fields)
+	elif not first:
+		fields = fields[1:] + fields[:1]
+	if bystanders:
+		others = [['Host', b'example.org'.hex(), 'bytes'], ['Accept', b'*/*'.hex(), 'str'], ['X-Range', b'bytes=0-0'.hex(), 'bytes'], ['If-Range-X', b'"x"'.hex(), 'str'], ['Accept-Encoding', b'identity'.hex(), 'str'], ['User-Agent', b'x'.hex(), 'str']]
+		for o in rng.sample(others, rng.randint(1, 3)):
+			fields.insert(rng.randint(0, len(fields)), o)
+	return fields
+
+
+def _w5_wire(fields, rng=None):
+	lines = []
+	for n, hv, _ in fields:
+		ows = b' ' if rng is None else rng.choice([b' ', b' ', b'', b'\t', b'  '])
+		lines.append(n.encode() + b':' + ows + bytes.fromhex(hv))
+	if not any(n.lower() == 'host' for n, _, _ in fields):
+		lines.append(b'Host: example.org')
+	return (b'GET /file HTTP/1.1\r\n' + b'\r\n'.join(lines) + b'\r\n\r\n').hex()
+
+
+def _gen_w5_conditional(rng, big):
+	"""(15) byte ranges x conditional request: If-Range naming the current validator as entity-tag or as HTTP-date, for every combination of validators on the
+	response, before / after the Range field, through several ways of building the request; the other conditional fields with a true precondition"""
+	out = []
+	for rep in range(3 if big else 1):
+		for vname, vk in IFR_VSETS:
+			vals = dict((n.lower(), x) for n, x in vk)
+			current = []
+			if 'etag' in vals and not vals['etag'].startswith('W/'):
+				current.append(('tag', vals['etag']))
+			if 'last-modified' in vals:
+				current.append(('date', vals['last-modified']))
+			for what, ifr in current:
+				for multi in (False, True):
+					for first in (True, False):
+						for how in (['item', 'ctor', 'wire'] if first else ['item', rng.choice(['parse', 'append', 'update', 'ctor5'])]):
+							n = rng.choice([9, 24, 40, 40, 64, 300, 4096]) if not multi else rng.choice([40, 40, 64, 120, 4096])
+							d = _rdata(rng, n)
+							v, want = _range_value(rng, n, multi)
+							fields = _w5_fields(rng, v, [('If-Range', ifr)], first, bystanders=rng.random() < 0.6)
+							q = {'how': how, 'fields': fields, 'ht': rng.choice(W5_MAPPINGS if how == 'update' else W5_HT)}
+							if how == 'wire':
+								q['raw'], q['frag'] = _w5_wire(fields, rng), rng.choice([0, 1, 5, 13])
+							order = rng.choice([['vk', 'body', 'ct'], ['body', 'vk', 'ct'], ['ct', 'body', 'vk'], ['vk', 'ct', 'body']])
+							out.append(_w5('ifr %s %s' % (vname, what), v, d, rng.choice(CTYPES), q, {'ord': order}, {'k': rng.choice(['bytes', 'bytes', 'bio', 'biow', 'file'])}, top={'vk': vk, 'want': want}))
+			# the other conditional fields, precondition true: the range is served
+			others = []
+			if 'etag' in vals and not vals['etag'].startswith('W/'):
+				others += [[('If-Match', vals['etag'])], [('If-Match', '*')], [('If-Match', '"zzz", ' + vals['etag'])], [('If-Match', vals['etag']), ('If-Range', vals['etag'])]]
+			if 'etag' in vals:
+				others += [[('If-None-Match', '"other"')], [('If-None-Match', 'W/"other", "more"')]]
+			if 'last-modified' in vals:
+				others += [[('If-Unmodified-Since', vals['last-modified'])], [('If-Unmodified-Since', 'Thu, 01 Jan 2099 00:00:00 GMT')], [('If-Modified-Since', 'Sat, 01 Jan 1994 00:00:00 GMT')],
+					[('If-Unmodified-Since', vals['last-modified']), ('If-Range', vals['last-modified'])]]
+			for extra in others:
+				multi = rng.random() < 0.5
+				d = _rdata(rng, 40)
+				v, want = _range_value(rng, 40, multi)
+				out.append(_w5('cond %s %s' % (vname, extra[0][0]), v, d, rng.choice(CTYPES), {'how': rng.choice(['item', 'ctor', 'parse']), 'fields': _w5_fields(rng, v, extra), 'ht': rng.choice(W5_HT)}, top={'vk': vk, 'want': want}))
+			# If-Range that does not name the current validator: no expectation about the status
+			for ifr in (IFR_OTHER if rep == 0 else rng.sample(IFR_OTHER, 4)):
+				if rng.random() < (0.5 if vname != 'etag+lm' else 1.0):
+					multi = rng.random() < 0.4
+					d = _rdata(rng, 40)
+					v, want = _range_value(rng, 40, multi)
+					out.append(_w5('ifr-other %s' % vname, v, d, 'text/plain', {'how': rng.choice(['item', 'ctor']), 'fields': _w5_fields(rng, v, [('If-Range', ifr)]), 'ht': 'odict'}, top={'vk': vk, 'want': want, 'noexp': 1}))
+	return out
+
+
+def _gen_w5_order(rng, big):
+	"""(14) + (15): the order of API calls and of fields; repeated Range field lines that are not adjacent; unsorted / reverse-sorted / repeated members"""
+	out = []
+	for order in itertools.permutations(['vk', 'body', 'ct']):
+		for ctor in (0, 1):
+			for cfirst in (0, 1):
+				for multi in (False, True):
+					n = rng.choice([24, 40, 90])
+					d = _rdata(rng, n)
+					v, want = _range_value(rng, n, multi)
+					vk = rng.choice(IFR_VSETS)[1]
+					r = {'ord': list(order), 'ctor': ctor, 'ht': rng.choice(W5_HT), 'vkb': rng.randint(0, 1)}
+					out.append(_w5('order %s%s%s' % ('/'.join(order), ' ctor' if ctor else '', ' cfirst' if cfirst else ''), v, d, rng.choice(CTYPES), {'mfirst': rng.randint(0, 1), 'ms': rng.choice(['str', 'bytes', None])}, r,
+						{'k': rng.choice(['bytes', 'bytearray', 'bio', 'biow', 'file', 'bodyobj'])}, top={'vk': vk, 'want': want}, cfirst=cfirst, ck=rng.choice([None, None, {'close': True}, {'close': False}, {'chunked': False}])))
+	# two and three Range field lines with other fields between them (append / parse / wire): the field value is their combination in the order received
+	for _ in range(120 if big else 45):
+		n = rng.randint(30, 90)
+		d = _rdata(rng, n)
+		rs = _disjoint(rng, n, rng.choice([2, 3, 3, 4]))
+		if not rs:
+			continue
+		rng.shuffle(rs)
+		k = rng.randint(2, len(rs))
+		cuts = sorted(rng.sample(range(1, len(rs)), k - 1))
+		groups = [rs[a:b] for a, b in zip([0] + cuts, cuts + [len(rs)])]
+		vals = [b','.join(b'%d-%d' % x for x in g) for g in groups]
+		vals[0] = b'bytes=' + vals[0]
+		fields = []
+		for i, val in enumerate(vals):
+			fields.append([rng.choice(['Range', 'range', 'RANGE']), val.hex(), 'bytes'])
+			if i + 1 < len(vals):
+				for o in rng.sample([['Host', b'example.org'.hex(), 'bytes'], ['Accept', b'*/*'.hex(), 'bytes'], ['X-Range', b'bytes=0-0'.hex(), 'bytes'], ['If-None-Match', b'"q"'.hex(), 'bytes'], ['Content-Range', b'bytes 0-1/2'.hex(), 'bytes']], rng.randint(1, 2)):
+					if o not in fields:
+						fields.append(o)
+		how = rng.choice(['append', 'parse', 'wire'])
+		q = {'how': how, 'fields': fields}
+		if how == 'wire':
+			q['raw'], q['frag'] = _w5_wire(fields, rng), rng.choice([0, 1, 3, 9])
+		out.append(_w5('range lines apart %s' % how, b', '.join(vals), d, rng.choice(CTYPES), q, top={'want': [list(x) for x in rs]}))
+	# member order: ascending, descending, unsorted, with repeated members (the parts come once each, in ascending order)
+	for _ in range(80 if big else 30):
+		n = rng.randint(40, 200)
+		rs = _disjoint(rng, n, rng.choice([3, 4, 5, 6]))
+		if not rs:
+			continue
+		kind = rng.choice(['asc', 'desc', 'unsorted', 'dup', 'dup'])
+		order = sorted(rs)
+		if kind == 'desc':
+			order.reverse()
+		elif kind != 'asc':
+			rng.shuffle(order)
+		if kind == 'dup':
+			for x in rng.sample(rs, rng.randint(1, 2)):
+				order.insert(rng.randint(0, len(order)), x)
+		v = b'bytes=' + rng.choice([b',', b', ']).join(b'%d-%d' % x for x in order)
+		out.append(_w5('members %s' % kind, v, _rdata(rng, n), rng.choice(CTYPES), {'how': rng.choice(['item', 'ctor', 'parse']), 'ht': rng.choice(W5_HT)}, top={'want': [list(x) for x in order], 'fam': 1}))
+	return out
+
+
+def _gen_w5_types(rng, big):
+	"""(11) argument types of every entry point the request / response / body go through"""
+	out = []
+	def data(multi):
+		n = rng.choice([24, 40, 64])
+		return (_rdata(rng, n),) + _range_value(rng, n, multi)
+	for ht in W5_HT:
+		for how in ('ctor', 'ctor5') + (('update', 'hset', 'assign') if ht in W5_MAPPINGS else ()):
+			for multi in (False, True):
+				d, v, want = data(multi)
+				fields = _w5_fields(rng, v, rng.choice([[], [('If-Range', '"v1"')]]))
+				out.append(_w5('type q.%s %s' % (how, ht), v, d, rng.choice(CTYPES), {'how': how, 'ht': ht, 'fields': fields, 'nb': rng.randint(0, 1)}, top={'want': want, 'vk': [['ETag', '"v1"']]}))
+		for multi in (False, True):
+			d, v, want = data(multi)
+			out.append(_w5('type r.ctor %s' % ht, v, d, rng.choice(CTYPES), None, {'ctor': 1, 'ht': ht, 'vkb': rng.randint(0, 1), 'stt': rng.choice([None, 'int', 'digits', 'float'])}, {'k': rng.choice(['bytes', 'bytearray', 'bio'])},
+				top={'want': want, 'vk': rng.choice(IFR_VSETS)[1]}))
+	for vt in W5_VT:
+		for how in ('item', 'append', 'ctor', 'update', 'setdefault'):
+			for multi in (False, True):
+				d, v, want = data(multi)
+				out.append(_w5('type value %s %s' % (vt, how), v, d, rng.choice(CTYPES), {'how': how, 'ht': 'dict', 'fields': [['Range', v.hex(), vt]] + rng.choice([[], [['If-Range', b'"v1"'.hex(), vt]]]), 'nb': rng.randint(0, 1)}, top={'want': want, 'vk': [['ETag', '"v1"']]}))
+	for ms in ('str', 'bytes'):
+		for pt in ('tuple', 'list', 'bytes', 'str', 'obj'):
+			for stt in ('int', 'text', 'textb', 'obj'):
+				d, v, want = data(rng.random() < 0.5)
+				out.append(_w5('type m=%s p=%s s=%s' % (ms, pt, stt), v, d, rng.choice(CTYPES), {'ms': ms, 'pt': pt, 'mfirst': rng.randint(0, 1)}, {'pt': pt, 'stt': stt, 'vkb': rng.randint(0, 1)}, top={'want': want}))
+	# bodies that are not seekable: lists, tuples, one-shot iterators, generators - the complete representation, never a partial response
+	for bk in ('list', 'tuple', 'iter', 'gen'):
+		for pieces in (1, 2, 5):
+			for multi in (False, True):
+				d, v, want = data(multi)
+				out.append(_w5('type body %s' % bk, v, d, rng.choice(CTYPES), None, None, {'k': bk, 'pieces': pieces}))
+	return out
+
+
+def _gen_w5_alias(rng, big):
+	"""(10) two requests / responses from one argument object, or the second from the parts of the first"""
+	out = []
+	for al in W5_ALIAS:
+		for multi in (False, True, rng.random() < 0.5, rng.random() < 0.5) * (2 if big else 1):
+			n = rng.choice([24, 40, 64, 300])
+			d = _rdata(rng, n)
+			v, want = _range_value(rng, n, multi)
+			other = rng.choice([b'bytes=0-1', b'bytes=1-3,5-7', b'bytes=-2', b'bytes=x', b'bits=1-2', _range_value(rng, n, True)[0], _range_value(rng, n, False)[0]])
+			vk = rng.choice(IFR_VSETS)[1]
+			fields = _w5_fields(rng, v, rng.choice([[], [('If-Range', vk[0][1])] if not vk[0][1].startswith('W/') else []]))
+			if not any(f[0] == 'Host' for f in fields):
+				fields.insert(rng.randint(0, len(fields)), ['Host', b'example.org'.hex(), 'bytes'])
+			bk = {'bshare': 'bodyobj', 'bbio': rng.choice(['bio', 'biow', 'file']), 'barr': 'bytearray'}.get(al, rng.choice(['bytes', 'bio', 'bytearray']))
+			out.append(_w5('alias %s' % al, v, d, rng.choice(CTYPES), {'how': 'ctor' if al == 'qdict' else 'item', 'ht': rng.choice(['dict', 'odict']), 'fields': fields}, {'ctor': 1 if al == 'rdict' else 0, 'ht': rng.choice(['dict', 'odict'])}, {'k': bk},
+				top={'want': want, 'vk': vk}, al=al, other=other.hex()))
+	return out
+
+
+def _gen_w5_refused(rng, big):
+	"""(12) operations that raise, between the construction of the messages and prepare()"""
+	out = []
+	for op in W5_REFUSE:
+		for multi in (False, True):
+			n = rng.choice([24, 40, 64])
+			d = _rdata(rng, n)
+			v, want = _range_value(rng, n, multi)
+			out.append(_w5('refused %s' % op, v, d, rng.choice(CTYPES), None, None, {'k': rng.choice(['bytes', 'bio', 'biow', 'file', 'bytearray'])}, top={'want': want, 'vk': rng.choice(IFR_VSETS)[1]}, refuse=[op]))
+	for _ in range(90 if big else 30):
+		n = rng.choice([24, 40, 64, 300])
+		d = _rdata(rng, n)
+		v, want = _range_value(rng, n, rng.random() < 0.5)
+		out.append(_w5('refused several', v, d, rng.choice(CTYPES), {'how': rng.choice(['item', 'ctor', 'parse'])}, None, {'k': rng.choice(['bytes', 'bio', 'biow', 'file'])}, top={'want': want, 'vk': rng.choice(IFR_VSETS)[1]}, refuse=rng.sample(W5_REFUSE, rng.randint(2, 5))))
+	return out
+
+
+def _gen_w5_knobs(rng, big):
+	"""(13) the charset of the body selected by a constructor argument / an attribute, with text outside ASCII: the representation is the text in that charset"""
+	out = []
+	for cs, texts in sorted(KNOB_TEXTS.items()):
+		for text in texts:
+			d = text.encode(cs)
+			for how in ('ctor', 'ctorq', 'enc', 'mime'):
+				for multi in ((False, True) if len(d) >= 12 else (False,)):
+					v, want = _range_value(rng, len(d), multi)
+					label = rng.choice([cs, cs.lower(), cs.upper()])
+					out.append(_w5('knob %s %s' % (cs, how), v, d, None, None, None, {'k': 'knob', 'text': text, 'cs': label, 'how': how}, top={'want': want}))
+	return out
+
+
+def _gen_w5_values(rng, big):
+	"""(16) representations made of many small pieces, slices that begin / end with / consist of white space octets, NUL, CR LF, '=' padding, dashes, delimiters"""
+	out = []
+	for i in range(1500 if big else 420):
+		pieces = []
+		for _ in range(rng.randint(4, 10)):
+			r = rng.random()
+			pieces.append(rng.choice(RARE_PIECES) if r < 0.6 else bytes(rng.choice(b'abcxyz019') for _ in range(rng.randint(1, 4))) if r < 0.9 else bytes([rng.randrange(256)]))
+		d = b''.join(pieces)
+		if len(d) < 4:
+			d += b'\r\n \t'
+		n = len(d)
+		edges = sorted(set([0] + list(itertools.accumulate(len(p) for p in pieces))))   # piece boundaries: slices start / end exactly at the special octets
+		special = [j for j in range(n) if d[j] in b'\t\n\x0b\x0c\r \x00=-']
+		if i % 3 == 2 and n >= 10:
+			ln = rng.randint(2, 4)
+			starts = [s for s in sorted(set(special + [max(0, j - ln + 1) for j in special] + edges)) if s + ln <= n]
+			rs = []
+			for s in rng.sample(starts, len(starts)):
+				if all(s + ln + 0 <= a or b < s for a, b in rs):
+					rs.append((s, s + ln - 1))
+				if len(rs) == 3:
+					break
+			if len(rs) < 2:
+				continue
+		else:
+			f = rng.choice(special + edges[:-1] or [0])
+			f = min(f, n - 2)
+			ends = [e for e in special + [e - 1 for e in edges] if e > f]
+			rs = [(f, rng.choice(ends) if ends else n - 1)]
+		rng.shuffle(rs)
+		v = b'bytes=' + b','.join(b'%d-%d' % x for x in rs)
+		kw = {'want': [list(x) for x in rs], 'bk': rng.choice(['bytes', 'bytes', 'bio', 'biow', 'file', 'bodyw']), 'pieces': rng.randint(1, 4)}
+		if i % 4 == 0:
+			kw.update(rt=1, frag=rng.choice([0, 1, 7]), fam=1)
+		out.append(_px(v, d, rng.choice(CTYPES), **kw))
+	return out
+
+
+def _gen_w5_pow2(rng, big):
+	"""(17) lengths that are exact multiples of 2^k (k = 9..16) and those +-1: representation, slice, first position, all members of a set"""
+	out = []
+	sizes = sorted(set([p + e for p in POW2 for e in (-1, 0, 1)] + [3 * p + e for p in (512, 4096, 16384) for e in (-1, 0, 1)] + [2 * 65536 + e for e in (-1, 0, 1)]))
+	for n in sizes:
+		d = _rdata(rng, n)
+		rs = {(0, n - 1), (1, n - 1), (0, n - 2), (n - 2, n - 1)}
+		marks = [p for p in POW2 if p < n - 1]
+		for p in (marks if big or n < 5000 else rng.sample(marks, min(len(marks), 3)) + marks[-1:]):
+			rs.update({(p - 1, p), (0, p - 1), (0, p), (n - p, n - 1), (p, n - 1), (1, p), (n - p - 1, n - 1)})
+		if n > 40000 and not big:
+			rs = set(rng.sample(sorted(rs), 6))
+		for f, l in sorted(r for r in rs if 0 <= r[0] < r[1] < n):
+			out.append(_px(b'bytes=%d-%d' % (f, l), d, rng.choice(CTYPES), want=[[f, l]], bk=rng.choice(['bytes', 'bio', 'biow', 'file', 'file']), pieces=rng.choice([1, 2, 3])))
+	# sets whose members all have a length of 2^k (or that +-1), first positions on 2^k
+	for p in POW2[:-2]:
+		for k in (2, 3):
+			for e in (-1, 0, 1):
+				ln = p + e
+				gap = rng.choice([0, 1, p - ln if p > ln else 3])
+				rs = [(i * (ln + gap), i * (ln + gap) + ln - 1) for i in range(k)]
+				n = rs[-1][1] + rng.choice([1, 2, p])
+				rng.shuffle(rs)
+				if e == 0 or big or k == 2:
+					out.append(_px(b'bytes=' + b','.join(b'%d-%d' % x for x in rs), _rdata(rng, n), rng.choice(CTYPES), want=[list(x) for x in rs], bk=rng.choice(['bytes', 'bio', 'file'])))
+	for p in POW2:
+		d = _rdata(rng, p + 12)
+		out.append(_px(b'bytes=%d-%d' % (p, p + 5), d, 'text/plain', want=[[p, p + 5]], bk=rng.choice(['bio', 'file'])))
+		out.append(_px(b'bytes=%d-%d,%d-%d' % (p, p + 4, p - 6, p - 2), d, 'text/plain', want=[[p, p + 4], [p - 6, p - 2]], bk=rng.choice(['bytes', 'file'])))
+	return out
+
+
+def _gen_wave5(rng, big):
+	out = []
+	for g in (_gen_w5_conditional, _gen_w5_order, _gen_w5_types, _gen_w5_alias, _gen_w5_refused, _gen_w5_knobs, _gen_w5_values, _gen_w5_pow2):
+		out.extend(g(rng, big))
+	return out
+
+
+class _BytesObj(object):
+	def __init__(self, b):
+		self.b = b
+
+	def __bytes__(self):
+		return self.b
+
+
+def _w5_value(hv, vt):
+	b = bytes.fromhex(hv)
+	if vt == 'str':
+		return b.decode('latin-1')
+	if vt == 'bytearray':
+		return bytearray(b)
+	if vt == 'memoryview':
+		return memoryview(b)
+	if vt == 'bytesobj':
+		return _BytesObj(b)
+	return b
+
+
+def _w5_container(pairs, ht):
+	import collections
+	from httoop import Headers
+	pairs = list(pairs)
+	if ht == 'dict':
+		return dict(pairs)
+	if ht == 'odict':
+		return collections.OrderedDict(pairs)
+	if ht == 'list':
+		return pairs
+	if ht == 'tuple':
+		return tuple(pairs)
+	if ht == 'lol':
+		return [list(p) for p in pairs]
+	if ht == 'iter':
+		return iter(pairs)
+	if ht == 'gen':
+		return (p for p in pairs)
+	if ht == 'map':
+		return map(tuple, pairs)
+	if ht == 'chain':
+		return itertools.chain(pairs[:1], pairs[1:])
+	if ht == 'zip':
+		return zip([p[0] for p in pairs], [p[1] for p in pairs])
+	if ht == 'items':
+		return dict(pairs).items()
+	if ht == 'headers':
+		return Headers(pairs)
+	raise ValueError(ht)
+
+
+def _w5_typed(value, t):
+	"""a protocol / status value in another of the types the setters accept"""
+	from httoop.messages.protocol import Protocol
+	from httoop.status import Status
+	if t in (None, 'tuple', 'int'):
+		return value
+	if t == 'list':
+		return list(value)
+	if t == 'bytes':
+		return b'HTTP/%d.%d' % tuple(value)
+	if t == 'str':
+		return 'HTTP/%d.%d' % tuple(value)
+	if t == 'obj':
+		return Protocol(value) if isinstance(value, tuple) else Status(value)
+	if t == 'text':
+		return '200 OK'
+	if t == 'textb':
+		return b'200 OK'
+	if t == 'digits':
+		return '200'
+	if t == 'float':
+		return 200.0
+	raise ValueError(t)
+
+
+def _w5_refuse(name, q, r):
+	"""one operation that must raise; returns the name of the exception (or 'no-exception')"""
+	import io
+	import tempfile
+	from httoop import Headers
+	from httoop.semantic.response import ComposedResponse
+
+	def closed(f):
+		f.write(b'zz')
+		f.close()
+		return f
+	ops = {
+		'body.closed': lambda: setattr(r, 'body', closed(io.BytesIO())), 'body.closedfile': lambda: setattr(r, 'body', closed(tempfile.TemporaryFile())), 'body.int': lambda: setattr(r, 'body', 5),
+		'body.obj': lambda: setattr(r, 'body', object()), 'body.surrogate': lambda: setattr(r, 'body', u'ab' + chr(0xdc80)), 'body.seekneg': lambda: r.body.seek(-3), 'body.seekwhence': lambda: r.body.seek(0, 7),
+		'body.write.int': lambda: r.body.write(5), 'body.mime.octets': lambda: setattr(r.body, 'mimetype', b'\xff\xfe'),
+		'status.99': lambda: setattr(r, 'status', 99), 'status.1000': lambda: setattr(r, 'status', 1000), 'status.abc': lambda: setattr(r, 'status', 'abc'), 'status.float': lambda: setattr(r, 'status', 206.5),
+		'status.none': lambda: setattr(r, 'status', None), 'status.neg': lambda: setattr(r, 'status', -206),
+		'method.space': lambda: setattr(q, 'method', 'G ET'), 'method.empty': lambda: setattr(q, 'method', ''), 'method.int': lambda: setattr(q, 'method', 5), 'method.nonascii': lambda: setattr(q, 'method', u'P' + chr(0xd6) + u'ST'),
+		'qproto.text': lambda: setattr(q, 'protocol', 'HTTP/x.y'), 'qproto.short': lambda: setattr(q, 'protocol', b'1.0'), 'qproto.one': lambda: setattr(q, 'protocol', (1,)), 'qproto.int': lambda: setattr(q, 'protocol', 10),
+		'rproto.text': lambda: setattr(r, 'protocol', 'HTTP/1.0x'), 'rproto.pair': lambda: setattr(r, 'protocol', ('1', 'x')),
+		'hdr.name': lambda: q.headers.__setitem__('Ra nge', b'bytes=0-1'), 'hdr.name2': lambda: q.headers.__setitem__('Range:', b'bytes=0-1'), 'hdr.value.obj': lambda: q.headers.__setitem__('Range', object()),
+		'hdr.value.none': lambda: q.headers.__setitem__('Range', None), 'hdr.value.surr': lambda: q.headers.__setitem__('Range', u'bytes=0-1' + chr(0xdc80)), 'hdr.parse': lambda: q.headers.parse(b'Range bytes=0-1'),
+		'hdr.parse2': lambda: q.headers.parse(b'Ra nge: bytes=0-1'), 'hdr.update.int': lambda: q.headers.update(5), 'hdr.update.name': lambda: q.headers.update({'Ra nge': b'bytes=0-1'}),
+		'hdr.update.list': lambda: q.headers.update([('Range', b'bytes=0-1')]), 'hdr.append.name': lambda: q.headers.append('Ra nge', b'bytes=0-1'), 'hdr.append.obj': lambda: q.headers.append('Range', object()),
+		'hdr.setdefault.name': lambda: q.headers.setdefault('Ra(nge', b'bytes=0-1'), 'hdr.del.missing': lambda: q.headers.__delitem__('X-None'), 'hdr.element.bad': lambda: Headers({'Range': b'bytes=x'}).element('Range'),
+		'hdr.setelem.bad': lambda: q.headers.set_element('Range', 'bytes'),
+		'rhdr.name': lambda: r.headers.__setitem__('E Tag', 'y'), 'rhdr.value.obj': lambda: r.headers.__setitem__('ETag' if 'ETag' in r.headers else 'Last-Modified', object()),
+		'rhdr.ce.unknown': lambda: (r.headers.__setitem__('Content-Encoding', 'nonexistent'), ComposedResponse(r, q).prepare()), 'rhdr.cr.bad': lambda: r.headers.set_element('Content-Range', 'bytes', (1, 2), 'x'),
+		'composed.none': lambda: ComposedResponse(r, None).prepare(),
+	}
+	try:
+		ops[name]()
+		got = 'no-exception'
+	except Exception as exc:
+		got = type(exc).__name__
+	if name == 'rhdr.ce.unknown':
+		r.headers.pop('Content-Encoding', None)   # (the application takes the offending field away again; nothing else was done)
+	return got
+
+
+def _observe_w5(c):
+	import io
+	import tempfile
+	from httoop import Request, Response, ServerStateMachine
+	from httoop.messages.body import Body
+	from httoop.semantic.response import ComposedResponse
+	_random.seed(hash((c['v'], c['d'])) & 0xffffffff)
+	w = c['w5']
+	q, r, b = w['q'], w['r'], w['b']
+	d = bytes.fromhex(c['d'])
+	v = None if c['v'] is None else bytes.fromhex(c['v'])
+	al = w.get('al')
+	other = bytes.fromhex(w['other']) if w.get('other') else b'bytes=0-1'
+	opened = []
+	extra = {}
+	try:
+		def served_before(rq, rs):
+			"""the second object is used: prepared, serialised"""
+			ComposedResponse(rs, rq).prepare()
+			bytes(rs.headers), bytes(rs.body)
+
+		# ---- the body object
+		def body_object():
+			k = b['k']
+			if k == 'bytes':
+				return d
+			if k == 'bytearray':
+				return bytearray(d)
+			if k == 'str':
+				return d.decode('utf-8')
+			if k == 'bio':
+				return io.BytesIO(d)
+			if k == 'bodyobj':
+				return Body(d)
+			if k in ('biow', 'file'):
+				obj = io.BytesIO() if k == 'biow' else tempfile.TemporaryFile()
+				opened.append(obj)
+				obj.write(d)
+				obj.flush()
+				return obj
+			if k == 'knob' and b['how'] in ('ctor', 'ctorq'):
+				return Body(b['text'], mimetype=('text/plain; charset=%s' % b['cs']) if b['how'] == 'ctor' else ('text/plain; charset="%s"' % b['cs']).encode('ascii'))
+			if k == 'knob':
+				return b['text']
+			pieces = b.get('pieces', 1)
+			cuts = [len(d) * i // pieces for i in range(pieces + 1)]
+			chunks = [d[x:y] for x, y in zip(cuts, cuts[1:])]
+			if k == 'list':
+				return chunks
+			if k == 'tuple':
+				return tuple(chunks)
+			if k == 'iter':
+				return iter(chunks)
+			if k == 'gen':
+				return (ch for ch in chunks)
+			raise ValueError(k)
+
+		def set_body(resp, obj):
+			if b['k'] == 'knob' and b['how'] == 'enc':
+				resp.body.encoding = b['cs']
+			elif b['k'] == 'knob' and b['how'] == 'mime':
+				resp.body.mimetype = 'text/html; charset=%s' % b['cs']
+			resp.body = obj
+
+		# ---- the request
+		names = (lambda n: n.encode('ascii')) if q.get('nb') else (lambda n: n)
+		pairs = lambda: [(names(n), _w5_value(hv, vt)) for n, hv, vt in q['fields'] if hv is not None]
+		how = q['how']
+		composed = None
+		resp = None
+		if w.get('cfirst'):
+			req, resp = Request(), Response()
+			composed = ComposedResponse(resp, req)
+		method = {'bytes': b'GET', 'str': 'GET'}.get(q.get('ms'))
+		if how == 'wire':
+			raw = bytes.fromhex(q['raw'])
+			sm = ServerStateMachine('http', 'example.org', 80)
+			step = q.get('frag') or len(raw)
+			got = []
+			for i in range(0, len(raw), step):
+				got.extend(sm.parse(raw[i:i + step]))
+			if len(got) != 1:
+				return {'err': 'escape:wire', 'msg': 'the request octets gave %d messages' % len(got)}
+			req, resp = got[0]
+		else:
+			argq = None
+			if how in ('ctor', 'ctor5') and not w.get('cfirst'):
+				if al == 'qdict':   # one container object for two requests; the other one is changed
+					argq = _w5_container(pairs(), q.get('ht', 'odict'))
+					snapshot = list(argq.items())
+					reqB = Request(headers=argq)
+					reqB.headers['Range'] = other
+					reqB.headers['X-B'] = 'y'
+					reqB.headers.pop('If-Range', None)
+					req = Request(headers=argq)
+					reqB.headers['Range'] = other
+					reqB.headers.pop('Host', None)
+					extra['argsame'] = list(argq.items()) == snapshot
+				elif how == 'ctor':
+					req = Request(headers=_w5_container(pairs(), q.get('ht', 'dict')))
+				else:
+					req = Request(method or 'GET', '/file', _w5_container(pairs(), q.get('ht', 'dict')), None, _w5_typed((1, 1), q.get('pt')))
+			else:
+				if not w.get('cfirst'):
+					req = Request()
+				if method is not None and q.get('mfirst'):
+					req.method = method
+				if al == 'qhdrB':   # the request is built from the header set of another one, which is then changed
+					reqB = Request()
+					for n, x in pairs():
+						reqB.headers[n] = x
+					reqB.headers['Range'] = other
+					req = Request(headers=reqB.headers)
+					for n, x in pairs():
+						req.headers[n] = x
+					reqB.headers.clear()
+					reqB.headers['Range'] = other
+				elif al == 'qupd':
+					reqB = Request()
+					for n, x in pairs():
+						reqB.headers[n] = x
+					req.headers.update(reqB.headers)
+					reqB.headers['Range'] = other
+					reqB.headers.pop('If-Range', None)
+					reqB.headers.clear()
+				elif how in ('item', 'ctor', 'ctor5'):
+					for n, x in pairs():
+						req.headers[n] = x
+				elif how == 'append':
+					for n, x in pairs():
+						req.headers.append(n, x)
+				elif how == 'setdefault':
+					for n, x in pairs():
+						req.headers.setdefault(n, x)
+				elif how == 'update':
+					req.headers.update(_w5_container(pairs(), q.get('ht', 'dict')))
+				elif how == 'hset':
+					req.headers.set(_w5_container(pairs(), q.get('ht', 'dict')))
+				elif how == 'assign':
+					req.headers = _w5_container(pairs(), q.get('ht', 'dict'))
+				elif how == 'parse':
+					req.headers.parse(b'\r\n'.join(n.encode('ascii') + b': ' + bytes.fromhex(hv) for n, hv, _ in q['fields'] if hv is not None))
+				else:
+					raise ValueError(how)
+			if method is not None and not q.get('mfirst'):
+				req.method = method
+			if q.get('pt') is not None and how != 'ctor5':
+				req.protocol = _w5_typed((1, 1), q['pt'])
+		# ---- the response
+		vk = c.get('vk', [['ETag', 'foo']])
+		val = (lambda x: x.encode('latin-1')) if r.get('vkb') else (lambda x: x)
+		hpairs = [(n, val(x)) for n, x in vk] + ([('Content-Type', val(c['ct']))] if c['ct'] is not None else [])
+		if r.get('ctor') and how != 'wire' and not w.get('cfirst'):
+			obj = body_object()
+			status = _w5_typed(200, r.get('stt'))
+			if al == 'rdict':   # one container object for the header sets of two responses; the other one is prepared for another range
+				argr = _w5_container(hpairs, r.get('ht', 'odict'))
+				snapshot = list(argr.items())
+				respB = Response(200, argr, d)
+				reqB = Request()
+				reqB.headers['Range'] = other
+				served_before(reqB, respB)
+				resp = Response(status, argr, obj, _w5_typed((1, 1), r.get('pt')))
+				respB.headers['ETag'] = '"changed"'
+				respB.headers.pop('Last-Modified', None)
+				extra['argsame'] = list(argr.items()) == snapshot
+			else:
+				steps = r.get('ord') or ['vk', 'body', 'ct']
+				ordered = sorted(hpairs, key=lambda p: steps.index('ct' if p[0] == 'Content-Type' else 'vk'))   # (stable: the validators keep their order)
+				resp = Response(status, _w5_container(ordered, r.get('ht', 'dict')), obj, _w5_typed((1, 1), r.get('pt')))
+		else:
+			if resp is None:
+				resp = Response()
+			if r.get('stt') is not None:
+				resp.status = _w5_typed(200, r['stt'])
+			if r.get('pt') is not None:
+				resp.protocol = _w5_typed((1, 1), r['pt'])
+			for step in r.get('ord') or ['vk', 'body', 'ct']:
+				if step == 'vk':
+					for n, x in vk:
+						resp.headers[n] = val(x)
+				elif step == 'ct':
+					if c['ct'] is not None:
+						resp.headers['Content-Type'] = val(c['ct'])
+				elif al in ('bshare', 'bbio', 'barr'):   # one body argument for two responses; the other one is prepared and serialised first
+					obj = body_object()
+					respB = Response()
+					respB.headers['ETag'] = 'foo'
+					respB.body = obj
+					resp.body = obj
+					reqB = Request()
+					reqB.headers['Range'] = other
+					served_before(reqB, respB)
+					extra['argsame'] = (bytes(obj) if al == 'barr' else obj.getvalue() if b['k'] in ('bio', 'biow') else None) in (d, None)
+				else:
+					set_body(resp, body_object())
+		# ---- second objects made from the parts of the finished first ones
+		if al in ('qhdrA', 'rhdr', 'rctor'):
+			reqB = Request(headers=req.headers)
+			reqB.headers['Range'] = other
+			reqB.headers.pop('If-Range', None)
+			if al == 'qhdrA':
+				respB = Response()
+				respB.headers['ETag'] = 'foo'
+				respB.body = d
+			elif al == 'rhdr':
+				respB = Response(headers=resp.headers)
+				respB.body = resp.body
+			else:
+				respB = Response(200, resp.headers, resp.body, resp.protocol)
+			served_before(reqB, respB)
+			reqB.headers.clear()
+			respB.headers['ETag'] = '"changed"'
+			respB.headers.pop('Last-Modified', None)
+			respB.headers['Content-Type'] = 'x/changed'
+		elif al == 'qelem':
+			try:
+				e = req.headers.element('Range')
+				e.ranges.append((0, 1))
+				e.ranges.reverse()
+				del e.ranges[:]
+				e.value = 'bits'
+			except Exception:
+				pass
+		# ---- refused operations
+		if w.get('refuse'):
+			extra['refused'] = [_w5_refuse(name, req, resp) for name in w['refuse']]
+		for key, value in (w.get('ck') or {}).items():
+			if composed is None:
+				composed = ComposedResponse(resp, req)
+			setattr(composed, key, value)
+		o = _px_finish(c, req, resp, composed)
+		o.update(extra)
+		return o
+	except Exception as exc:
+		return _err(exc)
+	finally:
+		for f in opened:
+			try:
+				f.close()
+			except Exception:
+				pass
+
+
+def _oracle_w5(c, o):
+	"""in addition to the ordinary statement: a response that stayed 200 carries the complete representation; the argument objects of the aliasing
+	scenarios are what they were; a charset knob shows in the media type of the 206 / of its parts"""
+	w = c['w5']
+	d = bytes.fromhex(c['d'])
+	body = bytes.fromhex(o['body'])
+	if o.get('argsame') is False:
+		return 'the argument object shared by the two messages was changed'
+	if o['status'] == 200 and (body != d or o['cl'] is None or bytes.fromhex(o['cl']) != b'%d' % len(d) or o['cr'] is not None):
+		return 'the 200 response does not carry the complete representation of %d octets: %d octets, Content-Length %r, Content-Range %r' % (len(d), len(body), o['cl'] and bytes.fromhex(o['cl']), o['cr'] and bytes.fromhex(o['cr']))
+	if w['b']['k'] == 'knob' and o['status'] == 206:
+		label = w['b']['cs'].lower().encode('ascii')
+		where = body if o['bd'] is not None else bytes.fromhex(o['ct'] or '')
+		if where.lower().count(b'charset=' + label) + where.lower().count(b'charset="' + label + b'"') < (len(c.get('want') or [1]) if o['bd'] is not None else 1):
+			return 'the media type of the partial response / its parts does not name the charset %s given for the body' % w['b']['cs']
+	return None
+
+
 def _strengthen(rng, tier):
 	big = tier == 'thorough'
 	out = []
@@ -890,6 +1639,7 @@ def gen_cases(rng, tier):
 	# the strengthening cases come last and draw from their own stream, so the older cases of a seed stay exactly what they were
 	cases.extend(_strengthen(_random.Random(rng.getrandbits(64)), tier))
 	cases.extend(_gen_wave4(_random.Random(rng.getrandbits(64)), tier == 'thorough'))   # last, own stream: the older cases of a seed stay what they were
+	cases.extend(_gen_wave5(_random.Random(rng.getrandbits(64)), tier == 'thorough'))   # (the same again for the wave-5 classes)
 	return cases
 
 
@@ -991,6 +1741,8 @@ def observe(c):
 
 
 def _observe_px(c):
+	if 'w5' in c:
+		return _observe_w5(c)
 	import io
 	import tempfile
 	from httoop import ClientStateMachine, Request, Response, ServerStateMachine
@@ -1140,47 +1892,7 @@ def _observe_px(c):
 			len(resp.body)
 		if c['ct'] is not None:
 			resp.headers['Content-Type'] = c['ct']
-		ct0 = resp.headers.getbytes('Content-Type')
-		before = int(resp.status)
-		_c20_observe(c.get('obs'), req, resp)
-		composed = ComposedResponse(resp, req)
-		composed.prepare()
-		_c20_observe(c.get('obs2'), req, resp)
-		h = resp.headers
-		ct = h.getbytes('Content-Type')
-		bd = None
-		if ct is not None and ct.startswith(b'multipart/') and int(resp.status) == 206 and (ct0 is None or ct != ct0):
-			bd = h.element('Content-Type').boundary.encode('ISO8859-1').hex()
-		body = bytes(resp.body)
-		o = {'before': before, 'status': int(resp.status), 'cr': hx(h.getbytes('Content-Range')), 'ct': hx(ct), 'cl': hx(h.getbytes('Content-Length')),
-			'body': body.hex(), 'bd': bd, 'ar': hx(h.getbytes('Accept-Ranges')), 'ct0': hx(ct0), 'seen': hx(req.headers.getbytes('Range'))}
-		if int(resp.status) == 206:
-			o['ct_text'] = h.get('Content-Type')
-			if c.get('fam'):   # the other members of the parse / compose and encode / decode families on what prepare() produced
-				if o['cr'] is not None:
-					e = h.element('Content-Range')
-					o['cr_elem'] = [list(e.range) if e.range else None, e.length, e.value, hx(bytes(e)), hx(bytes(type(e).parse(bytes.fromhex(o['cr']))))]
-				if bd is not None:
-					dec = Body(mimetype=h.get('Content-Type')).decode(body)
-					o['dec'] = [[hx(p.headers.getbytes('Content-Range')), hx(bytes(p))] for p in dec]
-			# serialise twice, prepare twice (same and new ComposedResponse object): nothing may move
-			o['body2'] = bytes(resp.body).hex()
-			if c.get('rt'):
-				wire = bytes(resp) + bytes(resp.headers) + bytes(resp.body)
-				o['wire'] = wire.hex()
-				cl = ClientStateMachine()
-				cl.request = req
-				step = c.get('frag') or len(wire)
-				got = []
-				for i in range(0, len(wire), step):
-					got.extend(cl.parse(wire[i:i + step]))
-				o['rt'] = [[int(r.status), hx(r.headers.getbytes('Content-Range')), hx(r.headers.getbytes('Content-Length')), bytes(r.body).hex()] for r in got]
-			again = []
-			for comp in (composed, ComposedResponse(resp, req)):
-				comp.prepare()
-				again.append([int(resp.status), hx(h.getbytes('Content-Range')), hx(h.getbytes('Content-Length')), hx(h.getbytes('Content-Type')), bytes(resp.body).hex()])
-			o['again'] = again
-		return o
+		return _px_finish(c, req, resp)
 	except Exception as exc:
 		return _err(exc)
 	finally:
@@ -1189,6 +1901,56 @@ def _observe_px(c):
 				f.close()
 			except Exception:
 				pass
+
+
+def _px_finish(c, req, resp, composed=None):
+	"""observers, prepare(), and everything that is read from the prepared response (shared by the px and the wave-5 cases)"""
+	from httoop import ClientStateMachine
+	from httoop.messages.body import Body
+	from httoop.semantic.response import ComposedResponse
+	hx = lambda x: None if x is None else bytes(x).hex()
+	ct0 = resp.headers.getbytes('Content-Type')
+	before = int(resp.status)
+	_c20_observe(c.get('obs'), req, resp)
+	if composed is None:
+		composed = ComposedResponse(resp, req)
+	composed.prepare()
+	_c20_observe(c.get('obs2'), req, resp)
+	h = resp.headers
+	ct = h.getbytes('Content-Type')
+	bd = None
+	if ct is not None and ct.startswith(b'multipart/') and int(resp.status) == 206 and (ct0 is None or ct != ct0):
+		bd = h.element('Content-Type').boundary.encode('ISO8859-1').hex()
+	body = bytes(resp.body)
+	o = {'before': before, 'status': int(resp.status), 'cr': hx(h.getbytes('Content-Range')), 'ct': hx(ct), 'cl': hx(h.getbytes('Content-Length')),
+		'body': body.hex(), 'bd': bd, 'ar': hx(h.getbytes('Accept-Ranges')), 'ct0': hx(ct0), 'seen': hx(req.headers.getbytes('Range'))}
+	if int(resp.status) == 206:
+		o['ct_text'] = h.get('Content-Type')
+		if c.get('fam'):   # the other members of the parse / compose and encode / decode families on what prepare() produced
+			if o['cr'] is not None:
+				e = h.element('Content-Range')
+				o['cr_elem'] = [list(e.range) if e.range else None, e.length, e.value, hx(bytes(e)), hx(bytes(type(e).parse(bytes.fromhex(o['cr']))))]
+			if bd is not None:
+				dec = Body(mimetype=h.get('Content-Type')).decode(body)
+				o['dec'] = [[hx(p.headers.getbytes('Content-Range')), hx(bytes(p))] for p in dec]
+		# serialise twice, prepare twice (same and new ComposedResponse object): nothing may move
+		o['body2'] = bytes(resp.body).hex()
+		if c.get('rt'):
+			wire = bytes(resp) + bytes(resp.headers) + bytes(resp.body)
+			o['wire'] = wire.hex()
+			cl = ClientStateMachine()
+			cl.request = req
+			step = c.get('frag') or len(wire)
+			got = []
+			for i in range(0, len(wire), step):
+				got.extend(cl.parse(wire[i:i + step]))
+			o['rt'] = [[int(r.status), hx(r.headers.getbytes('Content-Range')), hx(r.headers.getbytes('Content-Length')), bytes(r.body).hex()] for r in got]
+		again = []
+		for comp in (composed, ComposedResponse(resp, req)):
+			comp.prepare()
+			again.append([int(resp.status), hx(h.getbytes('Content-Range')), hx(h.getbytes('Content-Length')), hx(h.getbytes('Content-Type')), bytes(resp.body).hex()])
+		o['again'] = again
+	return o
 
 
 def _rspec(r):
@@ -1303,6 +2065,8 @@ def oracle(c, o):
 	fail = _oracle_prepared(c, o)
 	if fail is None and k == 'px':
 		fail = _oracle_px(c, o)
+	if fail is None and k == 'px' and 'w5' in c:
+		fail = _oracle_w5(c, o)
 	if fail is not None and k == 'px':
 		fail = _px_label(c) + fail
 	return fail
@@ -1310,6 +2074,8 @@ def oracle(c, o):
 
 def _px_label(c):
 	"""first 60 characters = class of the failing input (the framework reports one violation per distinct prefix)"""
+	if 'w5' in c:
+		return 'px[' + c['w5']['lab'][:30] + '] '
 	how = [c.get('bk', 'bytes')] + ['%s=%s' % (key, c[key] if key not in ('prior', 'other', 'parts', 'vk') else '..') for key in ('opos', 'bpos', 'bread', 'pre_ser', 'pieces', 'prior', 'rk', 'rn', 'vk', 'me', 'st0', 'rp', 'qp') if key in c] + (['observed'] if c.get('obs') or c.get('obs2') else [])
 	if c.get('ct') is None or any(ord(ch) > 127 for ch in c['ct']):
 		how.append('ct=%r' % (c.get('ct'),))
